@@ -16,7 +16,7 @@ SPEC = {
 }
 
 TEXT = {
-    "technique": "rapid lock-step state machine over real endpoints on a gated in-memory wire (exact expected-bytes oracle at quiescence) + free-running four-goroutine driver under -race",
+    "technique": "rapid lock-step state machine over real endpoints on a gated in-memory wire (exact expected-bytes oracle at quiescence; incl. Writes held at the transport while the same endpoint reads) + free-running four-goroutine driver under -race",
     "engine": "rapid + harness wire (in-package harness in transports/obfs4)",
     "level_text": ("Exploration. Real client and server built through the public factories exchange generated write sequences while the "
                    "harness decides how every ciphertext byte (handshakes included) is segmented; after every action, at quiescence, the "
